@@ -49,6 +49,9 @@ type topoDelay struct {
 	Host string `json:"host"`
 	Ns   int64  `json:"ns"`
 	Seq  int    `json:"seq"` // position among the delays of this pool since its last successful connect
+	// WaitedNs is the time that really passed between this delay being chosen and the slot's next step (its next
+	// delay or its successful connect): the wait the proxy actually made plus one connection attempt; 0 = not observed
+	WaitedNs int64 `json:"waited_ns"`
 }
 
 type topoResult struct {
@@ -286,17 +289,33 @@ func runTopoBehaviour(beh []topoStep, res *topoResult, base, max time.Duration, 
 	}
 	// reconnect delays observed through the hooks
 	seq := map[string]int{}
+	open := map[string]int{} // slot -> index in res.Delays of its delay still waiting for the slot's next step
+	openTs := map[string]int64{}
+	closeWait := func(k string, ts int64) {
+		if i, ok := open[k]; ok {
+			res.Delays[i].WaitedNs = ts - openTs[k]
+			delete(open, k)
+		}
+	}
 	for _, ev := range t.Events() {
+		ts, _ := ev["ts"].(int64)
 		switch ev["ev"] {
 		case "H.delay":
 			k := fmt.Sprint(ev["who"], ev["host"], ev["idx"])
+			closeWait(k, ts)
 			res.Delays = append(res.Delays, topoDelay{Who: ev["who"].(string), Host: ev["host"].(string), Ns: ev["ns"].(int64), Seq: seq[k]})
+			open[k], openTs[k] = len(res.Delays)-1, ts
 			seq[k]++
 		case "H.slotfill":
+			closeWait(fmt.Sprint("pool", ev["host"], ev["idx"]), ts)
 			for k := range seq {
 				if strings.Contains(k, ev["host"].(string)) {
 					seq[k] = 0
 				}
+			}
+		case "H.outage":
+			if z, _ := ev["zero"].(bool); z {
+				closeWait(fmt.Sprint("ctrl", "", 0), ts)
 			}
 		}
 	}
